@@ -513,17 +513,13 @@ class Inliner:
             s2 = copy.deepcopy(target)
             s2.value = v if v is not None else ast.Constant(None)
             return [s2]
+        if mode in ("assign", "return") and not _terminates(body):
+            # falling off the end returns None: made explicit, so that it lands only on the ends that do fall through
+            body = list(body) + [ast.Return(value=None)]
         try:
             body = single_exit(body, on_return)
         except NoCanon:
             return None
-        if mode == "assign" and not _always_assigns(body):
-            # falling off the end returns None
-            s2 = copy.deepcopy(target)
-            s2.value = ast.Constant(None)
-            body = _append_fallthrough(body, s2)
-        if mode == "return" and not _terminates(body):
-            body = _append_fallthrough(body, ast.Return(value=None))
         body = self.rec(pre + body, d - 1, stack + (callee.name,))
         for s in body:
             for n in ast.walk(s):
